@@ -34,6 +34,9 @@ func rangeLabels(rs []Range, l map[string]bool) (longQ, zeroQ bool) {
 		if i > 0 && r.NL {
 			l["several header lines"] = true
 		}
+		if r.Empty > 0 {
+			l["empty list element"] = true
+		}
 		for _, w := range r.WS {
 			if w != "" {
 				l["optional whitespace"] = true
